@@ -22,8 +22,14 @@ using namespace quill;
 
 struct Opt
 {
+#if defined(VF_BOUNDED)
+  // bounded variant (C05): a blocking bounded queue large enough for the whole history (nobody polls while the thread logs)
+  static constexpr QueueType queue_type = QueueType::BoundedBlocking;
+  static constexpr size_t initial_queue_capacity = 4u << 20;
+#else
   static constexpr QueueType queue_type = QueueType::UnboundedBlocking;
   static constexpr size_t initial_queue_capacity = 256;
+#endif
   static constexpr uint32_t blocking_queue_retry_interval_ns = 800;
   static constexpr size_t unbounded_queue_max_capacity = 1024 * 1024;
   static constexpr HugePagesPolicy huge_pages_policy = HugePagesPolicy::Never;
@@ -123,6 +129,8 @@ int main(int argc, char** argv)
   cmp(got2, want2, 2);
   for (auto const& nn : notes)
     if (nn.find("Quill INFO") == std::string::npos) vf::J("viol").s("kind", "unexpected-backend-error").s("case", cs).s("detail", nn).emit();
+  // (the comparison above is a statement about the global order as well: the exited thread's statements were all enqueued,
+  // with earlier timestamps, before the first statement of the main thread)
   size_t const ctx = detail::ThreadContextManager::instance()._thread_contexts.size();
   if (ctx != 1) vf::J("viol").s("kind", "contexts-not-reclaimed").s("case", cs).s("detail", std::to_string(ctx) + " contexts retained, 1 live thread").emit();
   size_t grown = 0;
